@@ -20,7 +20,9 @@ CD0 == R(1, 2)
 CD2 == R(1, 3600)
 CTC1 == I(400)
 CTC3tp == I(50)
-CTCR == R(19, 20)
+\* maximum cruise thrust as a fraction of maximum climb thrust: an aircraft parameter like any other (the parameter
+\* class happens to default it to 0.95) - a case dimension
+CTCRs == {R(19, 20), R(4, 5)}
 CTDES_HIGH == R(1, 10)
 CTDES_LOW == R(1, 5)
 HPDES == R(3, 8)          \* as a fraction of c_tc2 (a lattice altitude: AT the transition altitude the low coefficient applies, BADA-3 3.7-10)
@@ -37,7 +39,7 @@ MaxClimbISA(c) ==
     [] c.eng = "Turboprop" -> Add(Mul(Div(I(4000), c.v), Sub(I(1), c.hf)), CTC3tp)
     [] c.eng = "Piston" -> Add(Mul(CTC1, Sub(I(1), c.hf)), Div(I(500), c.v))
 MaxClimb(c) == Mul(MaxClimbISA(c), Derate(c.der))
-MaxCruise(c) == Mul(MaxClimb(c), CTCR)
+MaxCruise(c) == Mul(MaxClimb(c), c.ctcr)
 DescentThrust(c) == IF Lt(HPDES, c.hf) THEN Mul(CTDES_HIGH, MaxClimb(c)) ELSE Mul(CTDES_LOW, MaxClimb(c))
 MaxThrust(c) == IF c.cruise THEN MaxCruise(c) ELSE MaxClimb(c)
 
@@ -62,7 +64,7 @@ PointCases == [eng : Engines, W : {I(600), I(1200)}, v : {I(10), I(20)},
                rocd : {I(-15), I(-5), I(0), I(5), I(40)}, a : {I(0), R(1, 10), R(-1, 5)},     \* (a strong deceleration makes the
                \* total-energy thrust negative in level flight and in climb as well)
                hf : {I(0), R(1, 4), HPDES, R(1, 2)}, der : {"none", "partial", "clipped", "cold"},
-               cruise : BOOLEAN]
+               cruise : BOOLEAN, ctcr : CTCRs]
 
 VARIABLES pcase, out, st
 pvars == <<pcase, out, st>>
